@@ -1300,6 +1300,18 @@ func (e *Engine) makeSlice(fr *Frame, st *State, ins *ssa.MakeSlice) Val {
 		a := e.heapTerm(st, "G$allocd", "(Array Int Int)")
 		sz := types.SizesFor("gc", "amd64").Sizeof(el)
 		e.heapSet(st, "G$allocd", "(Array Int Int)", "0", sx("store", a, "0", sx("+", sx("select", a, "0"), sx("*", cp, num(sz)))))
+		root := fr
+		for root.parent != nil {
+			root = root.parent
+		}
+		if root.contract != nil {
+			for _, c := range root.contract.Ensures {
+				if strings.Contains(c.Src, "allocd") {
+					e.note("allocation counter: counts make([]T, n) in this function and in callees executed in line; append, new and callees with their own contract are not counted")
+					break
+				}
+			}
+		}
 	}
 	r := e.freshRef(st, "mk")
 	for _, c := range flat(el) {
